@@ -410,7 +410,7 @@ def _fresh_cases(ctx):
 def search(ctx, suspects, budget):
     t0 = time.time()
     out, seen = [], set()
-    todo = [s["case"] for s in suspects if s.get("case")] + [c["case"] for c in fc.load_corpus(ID)]
+    todo = [s["case"] for s in suspects if s.get("case")] + [c["case"] for c in fc.load_corpus(ID)] + fc.minimal_family()
     fresh = _fresh_cases(ctx)
     n = 0
     cap = ctx.n(200, 5000)
